@@ -61,7 +61,19 @@ impl Case for Pres {
 fn crate_invariants(nr_gens: usize, rels: &[Vec<i64>]) -> Vec<BigInt> {
     // words reach the crate the way callers build them: literally, or as values with a history (see fw)
     let ws: Vec<FreeWord> = rels.iter().map(|w| crate::props::c11::fw(w)).collect();
-    abelian_invariants(nr_gens, ws.iter()).into_iter().map(BigInt::from).collect()
+    // the relator list reaches the crate in the argument forms a caller may use: a slice iterator, the Vec by
+    // reference, and lazy iterators that do not know their length in advance (filter, flat_map, chain)
+    let out = match h64(&(nr_gens, rels)) % 5 {
+        0 => abelian_invariants(nr_gens, ws.iter()),
+        1 => abelian_invariants(nr_gens, &ws),
+        2 => abelian_invariants(nr_gens, ws.iter().filter(|w| w.len() < usize::MAX)),
+        3 => abelian_invariants(nr_gens, ws.chunks(2).flat_map(|c| c.iter())),
+        _ => {
+            let k = ws.len() / 2;
+            abelian_invariants(nr_gens, ws[..k].iter().chain(ws[k..].iter()))
+        }
+    };
+    out.into_iter().map(BigInt::from).collect()
 }
 
 /// the equivalent presentation described by the recipe
